@@ -95,7 +95,22 @@ fn run_case(_kind: &str, idx: u64, rng: &mut Rng, mon: &mut Mon, _tier: Tier) {
     }
     let w = weight(rng);
     // (a third of the limit sets is installed through update_range on an earlier, different set)
-    let cons = if rng.bool(0.33) { mon.count("limits_via_update_range"); via_update_range(rng, from, to, w) } else { Constraints::new(from, to, w) };
+    let cons = match rng.usize(6) {
+        0 | 1 => {
+            mon.count("limits_via_update_range");
+            via_update_range(rng, from, to, w)
+        }
+        2 => {
+            // from_degrees: the reference limits are the fed degrees converted by the monitor itself
+            mon.count("limits_via_from_degrees");
+            let (fd, td): ([f64; 6], [f64; 6]) = (std::array::from_fn(|j| from[j].to_degrees()), std::array::from_fn(|j| to[j].to_degrees()));
+            let c = Constraints::from_degrees(std::array::from_fn(|j| fd[j]..=td[j]), w);
+            from = std::array::from_fn(|j| fd[j].to_radians());
+            to = std::array::from_fn(|j| td[j].to_radians());
+            c
+        }
+        _ => Constraints::new(from, to, w),
+    };
     let limited = build(Arc::new(OPWKinematics::new_with_constraints(to_params(&rp), cons)), &layers);
     let detail = |what: &str, extra: serde_json::Value| json!({"robot": robot_json(&robot), "stack": stack_json(&layers), "entry": e.name(), "q": jf(&q), "prev": jf(&prev), "j6": j6,
         "from": jf(&from), "to": jf(&to), "weight": w, "clause": what, "extra": extra});
